@@ -27,6 +27,9 @@ def gen_wrapper_case(r, tier, canonical=True, trimmed=True):
             ents.append(['k%d' % ki, cl, vals[0] if cl == 'gconst' else vals])
         c['ents'] = ents
     c['op'] = 'wrapper'
+    # voxel data: in-memory integers, in-memory floats with fractions, or a file-backed integer
+    # image with scale factors (the data object then delivers scaled floats, the header says int16)
+    c['data_kind'] = r.choice(['int32', 'int32', 'int16', 'float32', 'scaled_file'])
     c['affine'] = M.rand_affine(r).tolist()
     if r.random() < 0.25:
         # oblique (rotation about one axis by an "exact" 3-4-5 angle), predicate comparison only
@@ -45,10 +48,36 @@ def build_wrapper(case):
     aff = np.array(case['affine'], dtype=float)
     ext = SM.build_parent(case, affine=aff)
     shape = case['shape']
-    data = np.arange(int(np.prod(shape)), dtype=np.int32).reshape(shape)
+    kind = case.get('data_kind', 'int32')
+    base = np.arange(int(np.prod(shape))).reshape(shape)
+    if kind == 'float32':
+        data = (base * 0.5 + 0.25).astype(np.float32)
+    elif kind == 'int16':
+        data = base.astype(np.int16)
+    else:
+        data = base.astype(np.int32)
     img = nb.Nifti1Image(data, aff)
     img.header.set_dim_info(slice=case['sd'])
     img.header.extensions.append(ext)
+    if kind == 'scaled_file':
+        # written as int16, then scl_slope / scl_inter patched into the header: the loaded image
+        # delivers base * 0.5 + 0.25 as float64 while its header data type stays int16
+        import tempfile, os, struct
+        d = tempfile.mkdtemp(prefix='dcmverif_wr_')
+        pth = os.path.join(d, 'scaled.nii')
+        img16 = nb.Nifti1Image(base.astype(np.int16), aff)
+        img16.header.set_dim_info(slice=case['sd'])
+        img16.header.extensions.append(ext)
+        nb.save(img16, pth)
+        with open(pth, 'r+b') as fh:
+            fh.seek(112)
+            fh.write(struct.pack('<2f', 0.5, 0.25))
+        loaded = nb.load(pth)
+        data = np.asanyarray(loaded.dataobj)        # read now: the scratch file is removed below
+        img = nb.Nifti1Image.from_bytes(open(pth, 'rb').read())
+        import shutil
+        shutil.rmtree(d, ignore_errors=True)
+        assert data.dtype.kind == 'f' and float(data.flat[1]) == 0.75, 'scaled fixture not as expected'
     return NiftiWrapper(img), data, aff
 
 
@@ -154,8 +183,40 @@ def merge_back_oracles(case, w, data, aff, dim, pieces):
     bd = np.asanyarray(back.nii_img.dataobj)
     if bd.shape != data.shape or not np.array_equal(bd, data):
         fails['C05'].append('data after split(%d)+merge differs (shape %s vs %s)' % (dim, bd.shape, data.shape))
+        fails['C03'].append('merged voxel data is not the inputs stacked in input order along dim %d' % dim)
     if not np.allclose(back.nii_img.affine, aff, atol=1e-3):
         fails['C05'].append('affine after split(%d)+merge differs' % dim)
+        fails['C03'].append('affine of the image merged along dim %d is not the parent affine' % dim)
+    # inputs of different data types (a later one wider than the first): position i of the merged
+    # image still holds input i's values exactly, and splitting gives them back
+    try:
+        import nibabel as nb
+        mixed = []
+        for i, pc in enumerate(pieces):
+            if i == 1:
+                d2 = np.asanyarray(pc.nii_img.dataobj).astype(np.float32) + np.float32(0.5)
+                im2 = nb.Nifti1Image(d2, pc.nii_img.affine, pc.nii_img.header)
+                im2.header.set_data_dtype(np.float32)
+                mixed.append(NiftiWrapper(im2))
+            else:
+                mixed.append(pc)
+        mw = NiftiWrapper.from_sequence(mixed, dim)
+        md = np.asanyarray(mw.nii_img.dataobj)
+        sl = [slice(None)] * md.ndim
+        for i, pc in enumerate(mixed):
+            if dim < md.ndim:
+                sl[dim] = i
+                got = md[tuple(sl)]
+            else:
+                got = md
+            want = np.asanyarray(pc.nii_img.dataobj).squeeze()
+            if got.squeeze().shape != want.shape or not np.array_equal(got.squeeze().astype(np.float64), want.astype(np.float64)):
+                msg = 'inputs of mixed data types (input 1 float32 with fractions) merged along dim %d: position %d does not hold input %d' % (dim, i, i)
+                fails['C03'].append(msg)
+                fails['C05'].append(msg)
+                break
+    except Exception as e:
+        fails['C03'].append('merging inputs of mixed data types along dim %d raised %r' % (dim, e))
     a = M.ext_to_model(back.meta_ext)
     b = M.ext_to_model(w.meta_ext)
     if a is None or M.canon_model_ext(a) != M.canon_model_ext(b):
